@@ -474,6 +474,10 @@ func (r *rewriter) selectStmt(n *ast.SelectStmt, label *ast.Ident) ast.Stmt {
 		},
 		ast.NewIdent(def))
 	head = append(head, &ast.AssignStmt{Lhs: []ast.Expr{sv}, Tok: token.DEFINE, Rhs: []ast.Expr{selCall}})
+	// a select whose clauses all end in terminating statements is itself terminating ("missing
+	// return" otherwise); a switch is only if it has a default clause: add one that cannot be reached
+	clauses = append(clauses, &ast.CaseClause{Body: []ast.Stmt{&ast.ExprStmt{X: &ast.CallExpr{Fun: ast.NewIdent("panic"),
+		Args: []ast.Expr{&ast.BasicLit{Kind: token.STRING, Value: strconv.Quote("simrt: Select returned a case the select statement does not have")}}}}}})
 	var sw ast.Stmt = &ast.SwitchStmt{
 		Tag:  &ast.SelectorExpr{X: sv, Sel: ast.NewIdent("I")},
 		Body: &ast.BlockStmt{List: clauses},
